@@ -76,7 +76,8 @@ theorem guard_program_complete {cfg : Cfg} {d : Dialect} {mc : Nat} {s0 s1 s' : 
                      envLen := s0.envLen - 1, ctr := s'.ctr } ∧
       s'.ctr.atoms = s0.ctr.atoms ∧ s'.ctr.pairs = s0.ctr.pairs ∧ s'.ctr.heap = s0.ctr.heap ∧
       (ext ≠ .PreHardFork → cost' = cost + declared) :=
-  Interp.guard_program_complete hv he hna hsk hparse hstep hrun
+  let ⟨f, dcl, h1, h2, h3, h4, h5, h6, h7, _⟩ := Interp.guard_program_complete hv he hna hsk hparse hstep hrun
+  ⟨f, dcl, h1, h2, h3, h4, h5, h6, h7⟩
 
 /-- every successful run that enters a guard passes through the point where that guard has completed
 (so the previous theorem applies to it), and continues from there with the rest of the fuel -/
